@@ -132,6 +132,12 @@ def C18(run):
         if o['rule'] in ('wigm', 'meek', 'warren') and rng.random() < 0.4 and o.get('arithmetic') in ('fixed', 'guarded', 'rational'):
             o = dict(o); o['display'] = rng.choice([0, 1, 2, 3, 5, 8, 12])
         items.append((p, o))
+    # minimised past failures first
+    try:
+        for c in json.load(open(os.path.join(common.VERIF, 'corpus', 'render_cases.json'))):
+            items.insert(0, (gen.unblt(c['blt']), c['options']))
+    except (OSError, ValueError):
+        pass
     res = common.pmap(_render_check, items, limit=20.0)
     ins, idx = [], []
     nb = 0
